@@ -3,7 +3,7 @@
    property — parsing the text rendered from the writer's syntax tree returns that tree — is an
    explicit premise, validated by suite P-afm on every generated model. *)
 From Coq Require Import List Bool String ZArith Permutation.
-From FM Require Import Base.Result Model.Ast Model.FM Model.PFM Format.Afm Proofs.AfmFacts.
+From FM Require Import Base.Result Model.Ast Model.FM Model.PFM Format.Afm Base.Str Proofs.PositionalFacts Proofs.AfmFacts.
 Import ListNotations.
 Local Open Scope list_scope.
 
@@ -45,6 +45,15 @@ Print Assumptions C06_norm_ok.
 Theorem C06_norm_idempotent : forall m, afm_ok m = true -> afm_norm (afm_norm m) = afm_norm m.
 Proof. exact afm_norm_idempotent. Qed.
 Print Assumptions C06_norm_idempotent.
+
+(* a real value is written in positional notation: the text the writer produces for it contains no exponent mark (the
+   grammar's DOUBLE token has none; the writer used to write Python's repr, 1e+16, which its own reader rejected) *)
+Theorem C06_real_values_without_exponent : forall r t rr, afm_value (VFloat r) = Ok (AvDouble t rr) -> no_e t = true.
+Proof.
+  intros r t rr H. cbn [afm_value] in H. destruct (py_positional r) as [t'|] eqn:E; [|discriminate].
+  injection H as <- _. exact (py_positional_no_exponent _ _ E).
+Qed.
+Print Assumptions C06_real_values_without_exponent.
 
 Example C06_nonvacuous : afm_ok afm_ex_model = true /\ afm_norm afm_ex_model <> afm_ex_model.
 Proof. split; [exact ex_ok | exact ex_moved]. Qed.
